@@ -145,11 +145,16 @@ def observe(cmd, args):
         return "ok"
     if cmd == "law.sp.embedded":
         # a clause is accepted inside a requirement exactly when Specifier accepts it (clause = stripped text starting with an operator)
+        # optional args: [1] the distribution name (default "x"), [2] how the clause is attached: plain | space | paren | parenx | extra
         cl = args[0]
+        name = args[1] if len(args) > 1 else "x"
+        form = args[2] if len(args) > 2 else "plain"
+        text = {"plain": name + cl, "space": name + " " + cl, "paren": name + " (" + cl + ")", "parenx": name + "(" + cl + " )",
+                "extra": name + "[e] " + cl}[form]
         sp = mk(cl)
-        try: r = Requirement("x" + cl)
+        try: r = Requirement(text)
         except InvalidRequirement: r = None
         if (sp is None) != (r is None): return "Specifier %s, Requirement %s" % ("rejects" if sp is None else "accepts", "rejects" if r is None else "accepts")
-        if sp is not None and (len(r.specifier) != 1 or list(r.specifier)[0] != sp or r.name != "x"): return "clause inside requirement is not the same specifier"
+        if sp is not None and (len(r.specifier) != 1 or list(r.specifier)[0] != sp or r.name != name): return "clause inside requirement is not the same specifier"
         return "ok"
     raise KeyError(cmd)
